@@ -30,7 +30,8 @@ def gen(c, uid):
           leaves += [(".%s%s" % (n, p), w) for p, w in sl]
           width += sw
       elif r < 0.45:
-        w, k = c.choice([1, 3, 4]), c.choice([2, 3])
+        # (lists of more than ten elements: element order must not follow the text order of the names)
+        w, k = c.choice([1, 3, 4]), c.choice([2, 3, 3, 11, 12])
         fields.append("'%s': [Bits%d]*%d" % (n, w, k))
         leaves += [(".%s[%d]" % (n, i), w) for i in range(k)]
         width += w * k
@@ -46,7 +47,7 @@ def gen(c, uid):
     mk(d)
   if c.random() < 0.25:
     return gen_same_name(c, uid, L)
-  sn, sw, sl = structs[-1]
+  sn, sw, sl = [st for st in structs if st[1] <= 900][-1]      # Bits are limited to 1023 bits
   picks = c.sample(sl, min(len(sl), c.randint(1, 4)))
   # a struct OUTPUT with list fields is known finding F13 in the Yosys backend (flattened variables driven
   # twice): pass the struct through only when the tree has no list field
